@@ -187,10 +187,20 @@ func guard(f func()) (p string) {
 
 var headerKeys = []string{"id", "token", "trace", "键", "k"}
 
-func genHeaders(rt *rapid.T) map[string]interface{} {
+// genHeaders draws header values; when structs is set (the receiving side decodes objects into registered
+// struct pointers) a value may also be a registered struct, so that the header segment defines a class.
+func genHeaders(rt *rapid.T, structs bool) map[string]interface{} {
 	h := map[string]interface{}{}
 	for n := rapid.IntRange(0, 3).Draw(rt, "nheaders"); n > 0; n-- {
 		k := rapid.SampledFrom(headerKeys).Draw(rt, "hk")
+		if structs && rapid.IntRange(0, 3).Draw(rt, "hStruct") == 0 {
+			st := rapid.SampledFrom([]reflect.Type{reflect.TypeOf(uni.Plain{}), reflect.TypeOf(uni.Inner{})}).Draw(rt, "hST")
+			v := uni.Gen(rt, st, 1, genOpts)
+			pv := reflect.New(st)
+			pv.Elem().Set(v)
+			h[k] = pv.Interface()
+			continue
+		}
 		h[k] = uni.Gen(rt, rapid.SampledFrom(safeDynamic).Draw(rt, "hT"), 1, genOpts).Interface()
 	}
 	return h
@@ -277,8 +287,8 @@ func TestRequestRoundTrip(t *testing.T) {
 		f := rapid.SampledFrom(svc.Catalogue).Draw(rt, "fn")
 		name := spell(rt, f.Name)
 		args, shape := genArgs(rt, f)
-		headers := genHeaders(rt)
 		co, so := genOptions(rt, "c."), genOptions(rt, "s.")
+		headers := genHeaders(rt, so.Struct == 0)
 		canon := fmt.Sprintf("request %s(%s) shape=%s headers=%v client[%s] service[%s]", name, nodes(args), shape, headers, co, so)
 		ev.S.Begin("request", canon)
 		cli, srv := core.NewClientCodec(co.list()...), core.NewServiceCodec(so.list()...)
@@ -388,7 +398,7 @@ func TestResponseRoundTrip(t *testing.T) {
 				}
 			}
 		}
-		rheaders := genHeaders(rt)
+		rheaders := genHeaders(rt, co.Struct == 0)
 		canon := fmt.Sprintf("response of %s kind=%s values=(%s) msg=%q headers=%v client[%s] service[%s]", f.Name, rs.kind, nodes(rs.vals), rs.msg, rheaders, co, so)
 		ev.S.Begin("response", canon)
 		cli, srv := core.NewClientCodec(co.list()...), core.NewServiceCodec(so.list()...)
